@@ -196,6 +196,9 @@ def same_up_to_phase(a, b, tol=1e-8):
     return bool(np.allclose(a, b * ph, atol=tol))
 
 
+BROADCAST1 = {"x", "y", "z", "h", "s", "sdg", "t", "tdg"}
+
+
 def run(nodes, outcomes, xor=False):
     """-> dict(qa, ca, psi, cls).  outcomes: values of the successive measurements (register-level masks)."""
     qa, ca = [], []
@@ -207,9 +210,7 @@ def run(nodes, outcomes, xor=False):
     def ensure():
         nonlocal psi
         n = len(qa)
-        if psi is None or len(psi) != (1 << n):
-            if psi is not None:
-                raise Unsupported("declaration after first gate")
+        if psi is None:
             psi = np.zeros(1 << n, dtype=complex); psi[0] = 1
 
     def qbits(a):
@@ -246,6 +247,16 @@ def run(nodes, outcomes, xor=False):
             for b in body:
                 apply_gate(b[1], [rmap[a[1]] for a in b[2]], [peval(e, env) for e in b[3]], depth + 1)
             return
+        if len(qubit_lists) == 1 and len(qubit_lists[0]) > 1 and name.lower() in BROADCAST1 and not params:
+            # a one-qubit gate without parameter on a whole register: the gate on each of its qubits
+            for b in qubit_lists[0]:
+                apply_gate(name, [[b]], params, depth + 1)
+            return
+        if len(qubit_lists) == 1 and len(qubit_lists[0]) > 1 and name.lower() == "qft" and not params:
+            # qft on a whole register: the documented transform on the register's qubits (lowest bit least significant)
+            bs = sorted(qubit_lists[0]); kk = len(bs)
+            psi = opexpr.embed(opexpr.dft(kk) @ opexpr.bitrev_perm(kk), bs, n) @ psi
+            return
         if any(len(q) != 1 for q in qubit_lists):
             raise Unsupported("whole-register argument to a built-in gate")
         bits = [q[0] for q in qubit_lists]
@@ -261,9 +272,10 @@ def run(nodes, outcomes, xor=False):
     for nd in nodes:
         k = nd[0]
         if k == "qreg":
-            if psi is not None:
-                raise Unsupported("late declaration")
             qa += [nd[1]] * nd[2]
+            if psi is not None:
+                # a register declared after the first operation: new qubits in |0> above the existing ones
+                ext = np.zeros(1 << len(qa), dtype=complex); ext[:len(psi)] = psi; psi = ext
         elif k == "creg":
             ca += [nd[1]] * nd[2]
         elif k == "gate":
